@@ -11,6 +11,7 @@ import StsModel.Drv.Path
 import StsModel.Drv.Auth
 import StsModel.Drv.Announce
 import StsModel.Drv.Release
+import StsModel.Drv.Live
 namespace Sts.Drv
 
 def main (args : List String) : IO UInt32 :=
@@ -29,6 +30,7 @@ def main (args : List String) : IO UInt32 :=
   | ["path"] => run pathStep ()
   | ["auth"] => run authStep Srv.init
   | ["announce"] => run announceStep ()
+  | ["live"] => run liveStep {}
   | ["release"] => run Rel.relStep {}
   | ["recovery"] => run Rel.relStep {}
   | ["release-orig"] => run Rel.relStep { fx := Sts.Release.Fixes.original }
